@@ -885,6 +885,7 @@ class Engine:
         """A lemma over spec functions / contracts: hyps ==> goal for all values of its variables."""
         st = State()
         st.nxt = z3.Int('alloc0')
+        self.in_lemma = True
         self.frames.append(Frame(fi=self.fi, module=self.fi.module, self_cls=None, contract=self.contract))
         self.param_env = {n: fresh(k, n) for n, k in lem.vars.items()}
         self.init_state = st.copy()
@@ -2183,6 +2184,23 @@ class Engine:
         return self.B.comprehension(self, st, e, 'set')
 
     def expr_DictComp(self, e, st):
+        # {k: v for target in iterable} whose contract gives the loop an invariant is executed as the loop it is:
+        #     __compN = {}; for target in iterable: __compN[k] = v
+        # (needed when v has effects -- e.g. a method call that awaits futures -- or the target is a tuple)
+        fr = self.frames[-1]
+        if (len(e.generators) == 1 and not e.generators[0].ifs and fr.contract is not None
+                and any(kk.startswith('iter:' + ast.unparse(e.generators[0].iter)) for kk in fr.contract.loops)):
+            n_ = fr.__dict__.setdefault('comp_counter', 0)
+            fr.__dict__['comp_counter'] = n_ + 1
+            tmp = f'__comp{n_}'
+            self.assign(ast.Name(id=tmp, ctx=ast.Store()), V(KDict(KStr, KDyn), None, meta='emptydict'), st)
+            g = e.generators[0]
+            body = ast.Assign(targets=[ast.Subscript(value=ast.Name(id=tmp, ctx=ast.Load()), slice=e.key, ctx=ast.Store())],
+                              value=e.value, lineno=e.lineno, col_offset=0)
+            loop = ast.For(target=g.target, iter=g.iter, body=[body], orelse=[], lineno=e.lineno, col_offset=0)
+            ast.fix_missing_locations(loop)
+            self.stmt_For(loop, st)
+            return st.env.pop(tmp)
         return self.B.comprehension(self, st, e, 'dict')
 
     def expr_GeneratorExp(self, e, st):
@@ -2461,6 +2479,17 @@ class Engine:
             key = 'f' + op
             if key not in self.uf_cache:
                 self.uf_cache[key] = z3.Function(key, z3.RealSort(), z3.RealSort(), z3.RealSort())
+            return self.uf_cache[key](a, b)
+        if ('opaque_nonlinear' in self.contract.theories and not getattr(self, 'in_lemma', False)
+                and ((op == 'div' and not z3.is_rational_value(z3.simplify(b)))
+                     or (op == 'mul' and not z3.is_rational_value(z3.simplify(a)) and not z3.is_rational_value(z3.simplify(b))))):
+            # products / quotients of two symbolic floats as uninterpreted functions (the same in code and contract):
+            # the control-flow level contracts that opt in need no arithmetic about them, and non-linear terms make
+            # every query of the function slow
+            key = 'r' + op
+            if key not in self.uf_cache:
+                self.uf_cache[key] = z3.Function(key, z3.RealSort(), z3.RealSort(), z3.RealSort())
+            self.assumptions.add('products / quotients of two symbolic floats are uninterpreted in this function (theory opaque_nonlinear)')
             return self.uf_cache[key](a, b)
         return {'add': lambda: a + b, 'sub': lambda: a - b, 'mul': lambda: a * b,
                 'div': lambda: a / b}[op]()
